@@ -56,7 +56,8 @@ class LeaveOneOutPseudoLikelihood(ExactMarginalLogLikelihood):
         """
         output = self.likelihood(function_dist, *params)
         m, L = output.mean, output.lazy_covariance_matrix.cholesky(upper=False)
-        m = m.reshape(*target.shape)
+        if m.numel() == target.numel():
+            m = m.reshape(*target.shape)  # (otherwise the mean broadcasts against a batch of target vectors)
         identity = torch.eye(*L.shape[-2:], dtype=m.dtype, device=m.device)
         sigma2 = 1.0 / L._cholesky_solve(identity, upper=False).diagonal(dim1=-1, dim2=-2)  # 1 / diag(inv(K))
         mu = target - L._cholesky_solve((target - m).unsqueeze(-1), upper=False).squeeze(-1) * sigma2
